@@ -110,6 +110,26 @@ fn eff(b: Option<i64>, code: i8) -> Option<i128> {
     b.map(|v| beyond_value(code).unwrap_or(v as i128))
 }
 
+/// the same integer in another internal width: 1 = i128, 2 = u128 / u64 where it is not negative,
+/// 3 = what the `int` filter makes of its decimal string (0 = the narrowest, as `big_value`)
+fn repr_value(v: i128, repr: u8) -> Value {
+    match repr % 4 {
+        1 => Value::from(v),
+        2 if v >= 0 => {
+            if v % 2 == 0 {
+                Value::from(v as u128)
+            } else {
+                u64::try_from(v).map(Value::from).unwrap_or_else(|_| Value::from(v as u128))
+            }
+        }
+        3 => {
+            let env = Environment::new();
+            env.compile_expression("s|int").and_then(|e| e.eval(Value::from_pairs([("s", Value::from(v.to_string()))]))).unwrap_or_else(|_| big_value(v))
+        }
+        _ => big_value(v),
+    }
+}
+
 fn big_value(v: i128) -> Value {
     if let Ok(x) = i64::try_from(v) {
         Value::from(x)
@@ -219,6 +239,9 @@ pub struct SliceCase {
     /// -1/-2/-3 = -2^63-1, -2^64, -2^127 (integers a template can write that exceed i64)
     #[serde(default)]
     pub beyond: [i8; 3],
+    /// internal width of the bounds when they are supplied as variables (see `repr_value`)
+    #[serde(default)]
+    pub repr: u8,
 }
 
 pub struct Slices;
@@ -279,13 +302,13 @@ impl Slices {
         let mut pairs = vec![("v", val)];
         if !c.lit {
             if let Some(x) = start {
-                pairs.push(("a", big_value(x)));
+                pairs.push(("a", repr_value(x, c.repr)));
             }
             if let Some(x) = stop {
-                pairs.push(("b", big_value(x)));
+                pairs.push(("b", repr_value(x, c.repr / 4)));
             }
             if let Some(x) = step {
-                pairs.push(("c", big_value(x)));
+                pairs.push(("c", repr_value(x, c.repr / 16)));
             }
         }
         let dir = if step.map_or(true, |s| s > 0) { "fwd" } else { "bwd" };
@@ -392,8 +415,9 @@ impl Part for Slices {
                 4 => Just([0i8; 3]),
                 1 => [-3i8..=3, -3i8..=3, -3i8..=3],
             ],
+            0u8..64,
         )
-            .prop_map(|(k, len, start, stop, step, lit, beyond)| SliceCase {
+            .prop_map(|(k, len, start, stop, step, lit, beyond, repr)| SliceCase {
                 kind: KINDS[k],
                 len,
                 start,
@@ -401,6 +425,7 @@ impl Part for Slices {
                 step,
                 lit,
                 beyond,
+                repr,
             })
             .boxed()
     }
@@ -434,6 +459,7 @@ pub fn slice_box(stride: usize, offset: usize) -> Vec<SliceCase> {
                                 step,
                                 lit: n % 2 == 0,
                                 beyond: [0; 3],
+                                repr: (n % 64) as u8,
                             });
                         }
                     }
@@ -444,9 +470,9 @@ pub fn slice_box(stride: usize, offset: usize) -> Vec<SliceCase> {
                 for &x in &[None, Some(-2i64), Some(0), Some(2), Some(9)] {
                     for &st in &[None, Some(-2i64), Some(-1), Some(1), Some(3)] {
                         for lit in [false, true] {
-                            out.push(SliceCase { kind, len, start: Some(0), stop: x, step: st, lit, beyond: [code, 0, 0] });
-                            out.push(SliceCase { kind, len, start: x, stop: Some(0), step: st, lit, beyond: [0, code, 0] });
-                            out.push(SliceCase { kind, len, start: x, stop: st, step: Some(0), lit, beyond: [0, 0, code] });
+                            out.push(SliceCase { kind, len, start: Some(0), stop: x, step: st, lit, beyond: [code, 0, 0], repr: 0 });
+                            out.push(SliceCase { kind, len, start: x, stop: Some(0), step: st, lit, beyond: [0, code, 0], repr: 0 });
+                            out.push(SliceCase { kind, len, start: x, stop: st, step: Some(0), lit, beyond: [0, 0, code], repr: 0 });
                         }
                     }
                 }
@@ -458,18 +484,18 @@ pub fn slice_box(stride: usize, offset: usize) -> Vec<SliceCase> {
                 for &x in &few {
                     for &s in &few_steps {
                         for lit in [false, true] {
-                            out.push(SliceCase { kind, len, start: Some(e), stop: x, step: s, lit , beyond: [0; 3] });
-                            out.push(SliceCase { kind, len, start: x, stop: Some(e), step: s, lit , beyond: [0; 3] });
+                            out.push(SliceCase { kind, len, start: Some(e), stop: x, step: s, lit, beyond: [0; 3], repr: 0 });
+                            out.push(SliceCase { kind, len, start: x, stop: Some(e), step: s, lit, beyond: [0; 3], repr: 0 });
                         }
                     }
                     for &y in &few {
-                        out.push(SliceCase { kind, len, start: x, stop: y, step: Some(e), lit: false , beyond: [0; 3] });
-                        out.push(SliceCase { kind, len, start: x, stop: y, step: Some(e), lit: true , beyond: [0; 3] });
+                        out.push(SliceCase { kind, len, start: x, stop: y, step: Some(e), lit: false, beyond: [0; 3], repr: 21 });
+                        out.push(SliceCase { kind, len, start: x, stop: y, step: Some(e), lit: true, beyond: [0; 3], repr: 0 });
                     }
                 }
                 for &e2 in &extremes {
-                    out.push(SliceCase { kind, len, start: Some(e), stop: Some(e2), step: Some(-1), lit: false , beyond: [0; 3] });
-                    out.push(SliceCase { kind, len, start: Some(e), stop: Some(e2), step: Some(e2), lit: false , beyond: [0; 3] });
+                    out.push(SliceCase { kind, len, start: Some(e), stop: Some(e2), step: Some(-1), lit: false, beyond: [0; 3], repr: 21 });
+                    out.push(SliceCase { kind, len, start: Some(e), stop: Some(e2), step: Some(e2), lit: false, beyond: [0; 3], repr: 21 });
                 }
             }
         }
@@ -603,7 +629,7 @@ impl Part for SliceBoundaries {
 crate::declare_parts!(Slices, Subscripts, SliceBoundaries);
 
 pub fn run(ctx: &mut Ctx) {
-    ctx.rule = "complete enumeration of kind in {ascii/multibyte/arc string, list, tuple, bytes, sized and unsized lazy iterable} x len 0..=6 x start, stop in {omitted} U [-9,9] x step in {omitted} U [-4,4] (both tiers enumerate the whole box), plus rows with i64::MIN/MIN+1/MAX-1/MAX in each position, plus random cases incl. +-2^32, +-2^62; bounds as literals and as variables; judged against Python's slice.indices model; every result is sliced, subscripted from the end and measured again; the rows with a bound at or beyond the i64 boundaries also run in isolated worker processes (so that an abort is attributed to its case). Non-trivial: negative step, negative or out-of-range bound, or length 0. Distinct by (kind, len, start, stop, step, literal/variable).".into();
+    ctx.rule = "complete enumeration of kind in {ascii/multibyte/arc string, list, tuple, bytes, sized and unsized lazy iterable} x len 0..=6 x start, stop in {omitted} U [-9,9] x step in {omitted} U [-4,4] (both tiers enumerate the whole box), plus rows with i64::MIN/MIN+1/MAX-1/MAX in each position, plus random cases incl. +-2^32, +-2^62; bounds as literals and as variables of every internal width (i64, u64, i128, u128, the result of `|int`); judged against Python's slice.indices model; every result is sliced, subscripted from the end and measured again; the rows with a bound at or beyond the i64 boundaries also run in isolated worker processes (so that an abort is attributed to its case). Non-trivial: negative step, negative or out-of-range bound, or length 0. Distinct by (kind, len, start, stop, step, literal/variable).".into();
     ctx.assumptions = vec![
         "model/pyslice.rs implements Python's slice.indices (unit-tested against CPython examples; cross-checked against python3 in the thorough tier)".into(),
         "an out-of-range subscript is expected to yield undefined (Jinja) where Python raises IndexError".into(),
